@@ -43,7 +43,7 @@ def expected_names(case, compact, more_out):
             for eid in order:
                 for v, n in lay[eid][grp]:
                     if (eid, v) not in fx:
-                        nin.append(f"{v}_{names[eid]}")
+                        nin.append(f"{v}_{names[eid]}" if (eid, v) not in case.tied else f"u_all_{eid}")
         nin += list(case.parameters)
         for eid in order:
             for v, n in lay[eid]["states"]:
@@ -92,7 +92,7 @@ def expected_sizes(case, compact, more_out):
     links = [e for e in order if e in linkset]
     fx = set(case.fixed)
     if compact <= 0:
-        sin = [n for grp in G3 for eid in order for v_, n in lay[eid][grp] if (eid, v_) not in fx] + [1] * len(case.parameters)
+        sin = [(1 if (eid, v_) in case.tied else n) for grp in G3 for eid in order for v_, n in lay[eid][grp] if (eid, v_) not in fx] + [1] * len(case.parameters)
         sout = [n for eid in order for _, n in lay[eid]["states"]]
         if more_out:
             sout += [linkset[e] for e in links] + [1] * len(orgs)
@@ -103,7 +103,7 @@ def expected_sizes(case, compact, more_out):
             for v, n in lay[eid][grp]:
                 if (eid, v) in fx:
                     continue
-                by[grp][v] = by[grp].get(v, 0) + n
+                by[grp][v] = by[grp].get(v, 0) + (1 if (eid, v) in case.tied else n)
     nq = sum(linkset[e] for e in links)
     if compact == 1:
         sin = [n for grp in G3 for n in by[grp].values()]
@@ -116,9 +116,9 @@ def expected_sizes(case, compact, more_out):
     return sin, sout
 
 
-def n_scalars(desc, fixed=()):
+def n_scalars(desc, fixed=(), tied=()):
     lay = D.var_layout(desc)
-    return sum(n for eid, L in lay.items() for grp in L.values() for v_, n in grp if (eid, v_) not in fixed)
+    return sum((1 if (eid, v_) in tied else n) for eid, L in lay.items() for grp in L.values() for v_, n in grp if (eid, v_) not in fixed)
 
 
 def one_case(M, rec, rng, g, desc, pars, st, clashing=False):
@@ -131,7 +131,9 @@ def one_case(M, rec, rng, g, desc, pars, st, clashing=False):
     try:
         _, fixed_from = g.values(desc, allow_inf=False)
         case = CC.CompileCase(M, rng, desc, pars, st, keys, opts, own_symbols=(rng.random() < 0.5 and not clashing),
-                              fixed_from=fixed_from, fixed_prob=0.3)
+                              fixed_from=fixed_from, fixed_prob=0.3, scaled_prob=0.3)
+        if case.tied:
+            rec.count("cases_with_one_symbol_driving_several_limits")
         if case.fixed:
             rec.count("cases_with_variables_supplied_as_numbers")
     except Exception as e:
@@ -156,6 +158,13 @@ def one_case(M, rec, rng, g, desc, pars, st, clashing=False):
                       f"compiles at level(s) {sorted(Fs)}" + (" [clashing element names]" if clashing else ""),
                       dict(ctx, exception=repr(failed[c_])[:300]))
         return
+    if failed and (case.tied or case.scaled or case.fixed):
+        # variables handed over as numbers, as expressions of the user's symbols or as one symbol driving a whole
+        # vector: the independent symbols are the arguments (none missing, none left free)
+        what = "one scalar symbol driving a vector variable" if case.tied else ("expressions of user symbols" if case.scaled else "plain numbers")
+        rec.violation(f"{PROP}:the function cannot be built at any level ({type(failed[0]).__name__}) when some variables were supplied as {what}",
+                      dict(ctx, exception=repr(failed[0])[:300]))
+        return
     if failed:
         rec.count("compile_failed")
         rec.seen("failed", repr(failed[0])[:120])
@@ -169,9 +178,9 @@ def one_case(M, rec, rng, g, desc, pars, st, clashing=False):
         if F.get_free():
             rec.violation(f"{PROP}:compact={compact}: compiled function has free symbols", dict(ctx, compact=compact, free=str(F.get_free())))
         tot = sum(F.size1_in(i) * F.size2_in(i) for i in range(F.n_in()))
-        if tot != n_scalars(desc, case.fixed) + len(case.parameters):
+        if tot != n_scalars(desc, case.fixed, case.tied) + len(case.parameters):
             rec.violation(f"{PROP}:compact={compact}: total argument size differs from the number of independent variables + parameters",
-                          dict(ctx, compact=compact, total=tot, expected=n_scalars(desc, case.fixed) + len(case.parameters)))
+                          dict(ctx, compact=compact, total=tot, expected=n_scalars(desc, case.fixed, case.tied) + len(case.parameters)))
         nin, nout = expected_names(case, compact, more_out)
         # the statement fixes order and content, not the spelling of names: a different spelling is only
         # counted; what must match is the sequence of argument/result SIZES implied by the documented
@@ -209,6 +218,12 @@ def one_case(M, rec, rng, g, desc, pars, st, clashing=False):
                     if (eid, v) in case.fixed:
                         continue
                     x = vals[eid][v]
+                    if (eid, v) in case.tied:
+                        byname[f"u_all_{eid}"] = cs.DM([x[0]])
+                        continue
+                    if (eid, v) in case.scaled:
+                        a_, b_ = case.scaled[(eid, v)]
+                        x = [(t_ - a_) / b_ for t_ in (x if isinstance(x, list) else [x])]
                     byname[f"{v}_{names[eid]}"] = cs.DM(x if isinstance(x, list) else [x])
         for k_, s_ in case.parameters.items():
             byname[k_] = cs.DM(case.pvalues[k_])
